@@ -8,7 +8,7 @@
    `last().unwrap()`): its None is fuel exhausted or that panic; the one-point case is None for every fuel.  Statements only (proofs: Proofs/SrcSegIter.v). *)
 From EG Require Import Base.Prelude Base.Casts Model.Geometry Model.Style Model.Line Model.Thickline Model.Join.
 From EG Require Import Gen.SrcGeometry Gen.SrcStyle Gen.SrcCircle Gen.SrcJoin Gen.SrcLine Gen.SrcThick Gen.SrcLineJoin Gen.SrcLineJoin2 Gen.SrcSegIter.
-From EG Require Import Proofs.SrcLineJoin2 Proofs.SrcSegIter.
+From EG Require Import Proofs.SrcLineJoin2 Proofs.SrcSegIter Proofs.SrcSegIterTotal.
 
 Theorem C07_src_thick_segment_iter_run : forall F pts w so segs,
   thick_segment_iter pts w = Some segs -> fuel_ok pts w F ->
@@ -25,6 +25,17 @@ Proof. exact src_closed_thick_segment_iter_run. Qed.
 Theorem C07_src_closed_new_single_point_panics : forall F a w so,
   src_ClosedThickSegmentIter_new F [a] w so = None /\ closed_thick_segment_iter [a] w so = None.
 Proof. intros F a w so. split; reflexivity. Qed.
+
+(* round 6: the other direction.  The models never answer None for widths up to 100000 (except the one-point slice of the closed
+   iterator, above), so the generated iterators driven from the generated `new` yield exactly the model's list *)
+Theorem C07_src_thick_segment_iter_total : forall F pts w so, 0 <= w <= 100000 -> fuel_ok pts w F ->
+  exists segs s0, thick_segment_iter pts w = Some segs /\ src_ThickSegmentIter_new F pts w so = Some s0 /\
+                  src_tsi_drive F (Datatypes.S (Datatypes.S (length pts))) s0 = Some segs.
+Proof. exact src_thick_segment_iter_total. Qed.
+Theorem C07_src_closed_thick_segment_iter_total : forall F pts w so, 0 <= w <= 100000 -> length pts <> 1%nat -> fuel_ok pts w F ->
+  exists segs s0 n, closed_thick_segment_iter pts w so = Some segs /\ (n <= length pts + 4)%nat /\
+                    src_ClosedThickSegmentIter_new F pts w so = Some s0 /\ src_ctsi_drive F n s0 = Some segs.
+Proof. exact src_closed_thick_segment_iter_total. Qed.
 
 Example C07_src_segiter_nonvacuous :
   (exists s0, src_ThickSegmentIter_new 50 [P 0 0; P 10 0; P 10 10] 3 SOLeft = Some s0 /\
